@@ -3,7 +3,9 @@
    Side conditions used below (FS/Exf_proofs.v): Inv (page size a power of two <= 2^31, fsize page aligned <= 2^61 and equal
    to the length of the kernel file, maxoff aligned, slots sorted/disjoint/aligned with len = min maxlen (fsize-off), all
    MAP_SHARED), op_ok (arguments in [0, 2^61], so no C integer wraps; requested windows MAP_SHARED),
-   FixedQ (the three behavioural facts of the current tree are those of the repaired code). *)
+   FixedQ (the three behavioural facts of the current tree are those of the repaired code).
+   `ok : os_ok` is the operating system: `ok n = false` means it refuses to grow the file to n bytes (RLIMIT_FSIZE/EFBIG,
+   ENOSPC, quota).  Every theorem holds for EVERY such oracle; `os_any` never refuses. *)
 Require Import ZArith List Bool. Require Import IW.Lib.CInt IW.Gen.Facts IW.FS.Exf IW.FS.Exf_proofs.
 Import ListNotations. Local Open Scope Z_scope.
 
@@ -38,20 +40,21 @@ Proof.
 Qed.
 
 (* (3) refinement: for every history of calls (shared windows) every answer and the final content are those of the flat
-   array machine - windows, the split, remapping on resize and the copy paths are invisible *)
-Theorem C12_read_last_write : forall q os st rs st', FixedQ q -> Inv st -> RunOk q st os -> run q st os = (rs, st') ->
-  spec_run_rel (psize st) (abs st) os rs (abs st') /\ Inv st' /\ psize st' = psize st /\ maxoff st' = maxoff st.
+   array machine - windows, the split, remapping on resize and the copy paths are invisible; a growth the operating system
+   refuses is, on both sides, the I/O error with every byte and the size kept (spec_grow) *)
+Theorem C12_read_last_write : forall q ok os st rs st', FixedQ q -> Inv st -> RunOk q ok st os -> run q ok st os = (rs, st') ->
+  spec_run_rel (psize st) ok (abs st) os rs (abs st') /\ Inv st' /\ psize st' = psize st /\ maxoff st' = maxoff st.
 Proof. exact run_refines. Qed.
 Print Assumptions C12_read_last_write.
 
 (* ... and on the flat array the last write wins, other bytes are kept, new space reads as zero *)
-Theorem C12_flat_read_after_write : forall ps a off d sp a', 0 < ps -> 0 <= off ->
-  spec_write ps a off d = (0, sp, a') -> spec_read a' off (zlen d) = d /\ sp = zlen d.
+Theorem C12_flat_read_after_write : forall ps ok a off d sp a', 0 < ps -> 0 <= off ->
+  spec_write ps ok a off d = (0, sp, a') -> spec_read a' off (zlen d) = d /\ sp = zlen d.
 Proof. exact flat_read_after_write. Qed.
 Print Assumptions C12_flat_read_after_write.
 
-Theorem C12_flat_write_frame : forall ps a off d sp a' b n, 0 < ps -> 0 <= off -> 0 <= b -> 0 <= n ->
-  spec_write ps a off d = (0, sp, a') -> (b + n <= off \/ off + zlen d <= b) ->
+Theorem C12_flat_write_frame : forall ps ok a off d sp a' b n, 0 < ps -> 0 <= off -> 0 <= b -> 0 <= n ->
+  spec_write ps ok a off d = (0, sp, a') -> (b + n <= off \/ off + zlen d <= b) ->
   spec_read a' b n = pread (ftrunc (a_bytes a) (zlen (a_bytes a'))) b n.
 Proof. exact flat_write_frame. Qed.
 Print Assumptions C12_flat_write_frame.
@@ -61,16 +64,41 @@ Proof. exact ftrunc_zero_tail. Qed.
 Print Assumptions C12_flat_zero_fill.
 
 (* (4) the size: page aligned, never above maxoff, equal to the length of the file on disk, which is what the next open sees *)
-Theorem C12_size_inv : forall q os st rs st', FixedQ q -> Inv st -> RunOk q st os -> run q st os = (rs, st') ->
+Theorem C12_size_inv : forall q ok os st rs st', FixedQ q -> Inv st -> RunOk q ok st os -> run q ok st os = (rs, st') ->
   fsize st' mod psize st' = 0 /\ (maxoff st' = 0 \/ fsize st' <= maxoff st') /\ zlen (file st') = fsize st' /\
   maxoff st' = maxoff st.
 Proof. exact size_inv. Qed.
 Print Assumptions C12_size_inv.
 
-Theorem C12_reopen_same : forall st mo p, Inv st -> psize st = EXF_PSIZE ->
-  exists st2, exfile_open (file st) 0 mo p = (0, st2) /\ fsize st2 = fsize st /\ file st2 = file st.
+Theorem C12_reopen_same : forall ok st mo p, Inv st -> psize st = EXF_PSIZE ->
+  exists st2, exfile_open ok (file st) 0 mo p = (0, st2) /\ fsize st2 = fsize st /\ file st2 = file st.
 Proof. exact reopen_same. Qed.
 Print Assumptions C12_reopen_same.
+
+(* (5) a growth the operating system refuses.  For EVERY call with EVERY argument (no range condition) on a state that
+   satisfies the invariant:
+   - a call that answers the I/O error has left the file bytes, the reported size, the limit and every window exactly as they
+     were (only the context of the resize policy may have advanced, it was consulted before the attempt), and transferred nothing;
+   - whenever the reported size has grown, the operating system accepted exactly that size: no call ever reports a size the
+     file does not have. *)
+Theorem C12_refused_growth_unchanged : forall q ok st o r st', Inv st -> step q ok st o = (r, st') ->
+  (o_rc r = EXF_E_IO -> st' = set_pol st (pol st') /\ o_sp r = 0) /\ (fsize st < fsize st' -> ok (fsize st') = true).
+Proof. exact step_os. Qed.
+Print Assumptions C12_refused_growth_unchanged.
+
+(* ... and the refusal is reported: a growth within the rules (maxoff) that the operating system refuses returns the I/O
+   error and the state before the call *)
+Theorem C12_refused_growth_is_error : forall ok st size, Inv st -> 0 <= size <= LIM ->
+  fsize st < rup size (psize st) -> (maxoff st = 0 \/ rup size (psize st) <= maxoff st) ->
+  ok (rup size (psize st)) = false -> truncate_lw ok st size = (EXF_E_IO, st).
+Proof. exact truncate_lw_refused. Qed.
+Print Assumptions C12_refused_growth_is_error.
+
+(* on the flat array: the refused size change answers the I/O error and keeps every byte *)
+Theorem C12_flat_refused : forall ok a n p, zlen (a_bytes a) < n -> ok n = false ->
+  spec_grow ok a n p = (EXF_E_IO, mkFlat (a_bytes a) (a_maxoff a) p).
+Proof. exact spec_grow_refused. Qed.
+Print Assumptions C12_flat_refused.
 
 (* size requests follow the policy: the C arithmetic of the three policies is the documented formula *)
 Theorem C12_policy_follows : forall q ps p nsize csize,
@@ -83,42 +111,61 @@ Qed.
 Print Assumptions C12_policy_follows.
 
 (* the state iwfs_exfile_open returns satisfies the invariant (so the theorems above apply to every opened file) *)
-Theorem C12_open_inv : forall f initial mo p rc st, PsOk EXF_PSIZE -> zlen f <= LIM -> 0 <= initial <= LIM -> 0 <= mo <= LIM ->
+Theorem C12_open_inv : forall ok f initial mo p rc st, PsOk EXF_PSIZE -> zlen f <= LIM -> 0 <= initial <= LIM -> 0 <= mo <= LIM ->
   (mo < EXF_PSIZE \/ zlen f <= mo / EXF_PSIZE * EXF_PSIZE) -> pol_ok p ->
-  exfile_open f initial mo p = (rc, st) -> rc = 0 -> Inv st /\ psize st = EXF_PSIZE.
+  exfile_open ok f initial mo p = (rc, st) -> rc = 0 -> Inv st /\ psize st = EXF_PSIZE.
 Proof. exact open_inv. Qed.
 Print Assumptions C12_open_inv.
 
 (* the hypotheses are satisfiable and the current tree is the repaired one: a concrete history on a freshly opened file *)
-Definition ex_st : exf := snd (exfile_open [] 0 12288 (PFibo 0)).
+Definition ex_st : exf := snd (exfile_open os_any [] 0 12288 (PFibo 0)).
 Definition ex_ops : list op := [OAddMmap 4096 4096 0; OWrite 4090 [1; 2; 3; 4; 5; 6; 7; 8; 9; 10]; OCopy 4092 6 100; ORead 4088 14; ORead 100 6].
 Example C12_history_ex :
-  FixedQ tree_quirks /\ PsOk EXF_PSIZE /\ Inv ex_st /\ RunOk tree_quirks ex_st ex_ops /\
-  map o_data (fst (run tree_quirks ex_st ex_ops)) = [[]; []; []; [0; 0; 1; 2; 3; 4; 5; 6; 7; 8; 9; 10; 0; 0]; [3; 4; 5; 6; 7; 8]] /\
-  fsize (snd (run tree_quirks ex_st ex_ops)) = 8192.
+  FixedQ tree_quirks /\ PsOk EXF_PSIZE /\ Inv ex_st /\ RunOk tree_quirks os_any ex_st ex_ops /\
+  map o_data (fst (run tree_quirks os_any ex_st ex_ops)) = [[]; []; []; [0; 0; 1; 2; 3; 4; 5; 6; 7; 8; 9; 10; 0; 0]; [3; 4; 5; 6; 7; 8]] /\
+  fsize (snd (run tree_quirks os_any ex_st ex_ops)) = 8192.
 Proof.
   assert (HP : PsOk EXF_PSIZE) by (exists 12; split; [Lia.lia | reflexivity]).
   split; [repeat split; reflexivity |]. split; [exact HP |].
   split.
-  - destruct (exfile_open [] 0 12288 (PFibo 0)) as [rc st] eqn:E.
+  - destruct (exfile_open os_any [] 0 12288 (PFibo 0)) as [rc st] eqn:E.
     assert (Hrc : rc = 0) by (vm_compute in E; inversion E; reflexivity).
     unfold ex_st. rewrite E. simpl.
-    refine (proj1 (open_inv [] 0 12288 (PFibo 0) rc st HP _ _ _ _ _ E Hrc)); try (vm_compute; intuition congruence).
+    refine (proj1 (open_inv os_any [] 0 12288 (PFibo 0) rc st HP _ _ _ _ _ E Hrc)); try (vm_compute; intuition congruence).
   - split; [| split; vm_compute; reflexivity].
     vm_compute. repeat split; try (intros; discriminate); try (left; intros; discriminate).
 Qed.
 
+(* a concrete history under RLIMIT_FSIZE = 8192 (fibo policy, a window over the second page that ends beyond the limit):
+   the refused requests answer the I/O error, the size stays 4096, the window stays unmapped, the bytes stay; growth up to
+   the limit is granted; after the limit is lifted the same request succeeds *)
+Definition ex_lim_ops : list op :=
+  [OWrite 0 [1; 2; 3]; OAddMmap 4096 8192 0; OEnsure 12000; OWrite 9000 [7]; OCopy 0 3 12000; OTruncate 8193; ORead 0 4; OEnsure 8192;
+   OWrite 8190 [9; 9; 9]; ORead 8188 4].
+Example C12_refused_ex :
+  Inv ex_st /\ RunOk tree_quirks (os_limit 8192) ex_st ex_lim_ops /\
+  map o_rc (fst (run tree_quirks (os_limit 8192) ex_st ex_lim_ops)) = [0; 0; EXF_E_IO; EXF_E_IO; EXF_E_IO; EXF_E_IO; 0; 0; EXF_E_IO; 0] /\
+  map o_data (fst (run tree_quirks (os_limit 8192) ex_st ex_lim_ops)) = [[]; []; []; []; []; []; [1; 2; 3; 0]; []; []; [0; 0; 0; 0]] /\
+  fsize (snd (run tree_quirks (os_limit 8192) ex_st ex_lim_ops)) = 8192 /\
+  map s_len (slots (snd (run tree_quirks (os_limit 8192) ex_st ex_lim_ops))) = [4096] /\
+  fst (step tree_quirks os_any (snd (run tree_quirks (os_limit 8192) ex_st ex_lim_ops)) (OWrite 8190 [9; 9; 9])) = mkOut 0 3 [].
+Proof.
+  split; [exact (proj1 (proj2 (proj2 C12_history_ex))) |].
+  split; [| repeat split; vm_compute; reflexivity].
+  vm_compute. repeat split; try (intros; discriminate); try (left; intros; discriminate).
+Qed.
+
 (* the unrepaired variants of the three places are refuted on the model (replays: corpus/C12) *)
-Definition ex_st1 : exf := snd (exfile_open [] 4096 0 PDefault).
+Definition ex_st1 : exf := snd (exfile_open os_any [] 4096 0 PDefault).
 Theorem C12_copy_ensure_refuted : exists st, Inv st /\
-  let st' := snd (exfile_copy orig_quirks st 0 3 8192) in zlen (file st') <> fsize st'.
+  let st' := snd (exfile_copy orig_quirks os_any st 0 3 8192) in zlen (file st') <> fsize st'.
 Proof.
   exists ex_st1. split.
   - assert (HP : PsOk EXF_PSIZE) by (exists 12; split; [Lia.lia | reflexivity]).
-    destruct (exfile_open [] 4096 0 PDefault) as [rc st] eqn:E.
+    destruct (exfile_open os_any [] 4096 0 PDefault) as [rc st] eqn:E.
     assert (Hrc : rc = 0) by (vm_compute in E; inversion E; reflexivity).
     unfold ex_st1. rewrite E. simpl.
-    refine (proj1 (open_inv [] 4096 0 PDefault rc st HP _ _ _ _ _ E Hrc)); try (vm_compute; intuition congruence).
+    refine (proj1 (open_inv os_any [] 4096 0 PDefault rc st HP _ _ _ _ _ E Hrc)); try (vm_compute; intuition congruence).
   - vm_compute. intros H; discriminate H.
 Qed.
 Print Assumptions C12_copy_ensure_refuted.
@@ -128,14 +175,14 @@ Theorem C12_mul_policy_refuted : exists nsize, 0 <= nsize <= LIM /\
 Proof. exists 1. vm_compute. intuition congruence. Qed.
 Print Assumptions C12_mul_policy_refuted.
 
-Theorem C12_copy_src_refuted : exists st, Inv st /\ fst (exfile_copy orig_quirks st 8192 8 0) = EXF_CRASH.
+Theorem C12_copy_src_refuted : exists st, Inv st /\ fst (exfile_copy orig_quirks os_any st 8192 8 0) = EXF_CRASH.
 Proof.
-  exists (snd (add_mmap_lw (snd (exfile_open [] 12288 0 PDefault)) 0 4096 0)). split.
+  exists (snd (add_mmap_lw (snd (exfile_open os_any [] 12288 0 PDefault)) 0 4096 0)). split.
   - assert (HP : PsOk EXF_PSIZE) by (exists 12; split; [Lia.lia | reflexivity]).
-    destruct (exfile_open [] 12288 0 PDefault) as [rc st] eqn:E.
+    destruct (exfile_open os_any [] 12288 0 PDefault) as [rc st] eqn:E.
     assert (Hrc : rc = 0) by (vm_compute in E; inversion E; reflexivity).
     assert (HI : Inv st).
-    { refine (proj1 (open_inv [] 12288 0 PDefault rc st HP _ _ _ _ _ E Hrc)); try (vm_compute; intuition congruence).
+    { refine (proj1 (open_inv os_any [] 12288 0 PDefault rc st HP _ _ _ _ _ E Hrc)); try (vm_compute; intuition congruence).
       }
     simpl. destruct (add_mmap_lw st 0 4096 0) as [rc2 st2] eqn:E2. simpl.
     refine (proj1 (add_mmap_lw_inv st 0 4096 0 rc2 st2 HI _ _ _ E2)); vm_compute; intuition congruence.
